@@ -196,11 +196,21 @@ def verify_function(c, mutate=None, canary=False):
         if o.kind in ("normal", "return"):
             rst = o.st.copy()
             rst.env["result"] = o.val if o.kind == "return" else None
+            if c.ret is not None and rst.env["result"] is not None:
+                from . import heap
+                rst.env["result"] = heap.coerce(rst.env["result"], c.ret, rst)
             if "__yielded__" in rst.env and any(isinstance(x, (ast.Yield, ast.YieldFrom)) for x in ast.walk(fnode)):
                 rst.env["result"] = rst.env["__yielded__"]
             cx.covers.append((f"return{nret}", list(rst.pc)))
             for lab, e in c._ensures:
-                g = boolify(X.ev(e, rst, True))
+                try:
+                    g = boolify(X.ev(e, rst, True))
+                except (AttributeError, TypeError, Unsupported) as err:
+                    if rst.env["result"] is None or isinstance(rst.env["result"], Opt):
+                        # the contract speaks about a value, this path returns None: must be unreachable
+                        g = z3.BoolVal(False)
+                    else:
+                        raise
                 cx.oblige(f"post.{lab}", "post", rst, g, getattr(fnode, "lineno", 0))
             for exc, when in c._raises:
                 if when is not None:
